@@ -350,22 +350,42 @@ func (em *emitter) _emitExpr(expr ast.Expression, dstType reflect.Type, reg int8
 	return reg, false
 }
 
-// emitIndexedExpr emits expr, with type typ, as the operand of an index
-// expression that is assigned or whose address is taken, or of a slice
-// expression, and returns its register. If expr is an array pointed to by a
-// pointer, as in (*p)[i] = v, &(*p)[i] and (*p)[:], the returned register
-// refers to the pointed array and not to a copy of the array.
+// emitIndexedExpr emits expr, with type typ, as the operand of a selector,
+// index, slice or address expression and returns its register.
+//
+// If expr is an array or a struct and it is the value pointed to by a
+// pointer, as p in (*p)[i] = v and (*p)[:], or it is a variable that is not
+// local to the function, as a package variable G in G.F.X = v and &G.A[i], the
+// returned register refers to the pointed value or to the variable and not
+// to a copy of it.
 func (em *emitter) emitIndexedExpr(expr ast.Expression, typ reflect.Type) int8 {
-	if typ.Kind() == reflect.Array {
-		if op, ok := expr.(*ast.UnaryOperator); ok && op.Op == ast.OperatorPointer {
-			ptrType := em.typ(op.Expr)
-			ptr := em.emitExpr(op.Expr, ptrType)
-			if ptr < 0 {
-				tmp := em.fb.newRegister(reflect.Pointer)
-				em.changeRegister(false, ptr, tmp, ptrType, ptrType)
-				ptr = tmp
+	if k := typ.Kind(); k == reflect.Array || k == reflect.Struct {
+		switch e := expr.(type) {
+		case *ast.UnaryOperator:
+			if e.Op == ast.OperatorPointer {
+				ptrType := em.typ(e.Expr)
+				ptr := em.emitExpr(e.Expr, ptrType)
+				if ptr < 0 {
+					tmp := em.fb.newRegister(reflect.Pointer)
+					em.changeRegister(false, ptr, tmp, ptrType, ptrType)
+					ptr = tmp
+				}
+				return -ptr
 			}
-			return -ptr
+		case *ast.Identifier:
+			if !em.fb.declaredInFunc(e.Name) {
+				if index, ok := em.varStore.nonLocalVarIndex(e); ok {
+					ptr := em.fb.newRegister(reflect.Pointer)
+					em.fb.emitGetVarAddr(index, ptr)
+					return -ptr
+				}
+			}
+		case *ast.Selector:
+			if index, ok := em.varStore.nonLocalVarIndex(e); ok {
+				ptr := em.fb.newRegister(reflect.Pointer)
+				em.fb.emitGetVarAddr(index, ptr)
+				return -ptr
+			}
 		}
 	}
 	return em.emitExpr(expr, typ)
@@ -724,7 +744,7 @@ func (em *emitter) emitCompositeLiteral(expr *ast.CompositeLiteral, reg int8, ds
 // emitIndex emits an index in register reg.
 func (em *emitter) emitIndex(v *ast.Index, reg int8, dstType reflect.Type) {
 	exprType := em.typ(v.Expr)
-	exprReg := em.emitExpr(v.Expr, exprType)
+	exprReg := em.emitIndexedExpr(v.Expr, exprType)
 	var indexType reflect.Type
 	if exprType.Kind() == reflect.Map {
 		indexType = exprType.Key()
@@ -828,7 +848,7 @@ func (em *emitter) emitSelector(v *ast.Selector, reg int8, dstType reflect.Type)
 		expr = op.Expr
 	}
 	typ := em.typ(expr)
-	exprReg := em.emitExpr(expr, typ)
+	exprReg := em.emitIndexedExpr(expr, typ)
 	var field reflect.StructField
 	if typ.Kind() == reflect.Pointer {
 		field, _ = typ.Elem().FieldByName(v.Ident)
@@ -1025,7 +1045,7 @@ func (em *emitter) emitUnaryOp(expr *ast.UnaryOperator, reg int8, regType reflec
 				expr = op.Expr
 			}
 			operandExprType := em.typ(expr)
-			exprReg := em.emitExpr(expr, operandExprType)
+			exprReg := em.emitIndexedExpr(expr, operandExprType)
 			var field reflect.StructField
 			if operandExprType.Kind() == reflect.Pointer {
 				field, _ = operandExprType.Elem().FieldByName(operand.Ident)
